@@ -96,7 +96,8 @@ def run(prop, tier, seed, ctx):
     n = 3 if tier == "quick" else 25
     cases = []
     for kind in ["busy", "printer", "blocked", "swallower", "swallower_loud", "finisher", "raiser_late", "catcher",
-                 "catcher_loud", "blocked_tn", "busy_tn", "printer_tn", "catcher_tn", "importer", "importer_tn", "unwinder", "unwinder_tn"]:
+                 "catcher_loud", "blocked_tn", "busy_tn", "printer_tn", "catcher_tn", "importer", "importer_tn", "unwinder", "unwinder_tn",
+                 "importer_nat", "importer_tn_nat", "busy_nat", "printer_tn_nat"]:
         for i in range(n):
             allowed = [0.05, 0.08, 0.12][(i + seed) % 3]
             fin = [20000, 300000, 1500000, 4000000][(i + seed) % 4]
